@@ -74,6 +74,12 @@ def alias_mods(nodes):
       if isinstance(sub, ast.For) and isinstance(sub.iter, ast.Name) and isinstance(
           sub.target, ast.Name) and sub.target.id in mut:
         out.add(sub.iter.id)
+      # for k, v in H.items(): v.mutate()   /   for v in H.values(): v.mutate()
+      if (isinstance(sub, ast.For) and isinstance(sub.iter, ast.Call) and isinstance(sub.iter.func, ast.Attribute)
+          and sub.iter.func.attr in ('items', 'values') and isinstance(sub.iter.func.value, ast.Name)):
+        tnames = {t.id for t in ast.walk(sub.target) if isinstance(t, ast.Name)}
+        if tnames & mut:
+          out.add(sub.iter.func.value.id)
   return out
 
 
@@ -149,6 +155,13 @@ class StmtMixin:
 
   def st_Assert(self, st):
     c = self.truth(self.eval(st.test))
+    cc = self.cur_contract
+    if cc is not None and self.depth == 0 and 'AssertionError' in cc.may_raise:
+      # the contract does not claim that this assert holds: a failing assert is an
+      # exceptional exit about which nothing is promised (listed as unproved in the evidence)
+      if not self.branch(c, st, tag='assert'):
+        raise Raise_('AssertionError', 'assert at line %d' % st.lineno)
+      return
     self.oblige(c, 'safety', 'assert at line %d' % st.lineno)
 
   def st_Raise(self, st):
@@ -287,6 +300,7 @@ class StmtMixin:
     mods = assigned_names(st.body) | assigned_names([ast.Assign(
         targets=[st.target], value=ast.Constant(0))]) | alias_mods([st])
     mods |= {n for n in self._ghost_names(lc)}
+    mods |= set(lc.havoc)
     live = isinstance(st.iter, ast.Name) and st.iter.id in mods and isinstance(it, V) and isinstance(it.sort, S.Seq)
     self.loop_entry[ordinal] = self._snap_env()
     # 1. invariant holds on entry (index 0)
@@ -365,7 +379,7 @@ class StmtMixin:
   def st_While(self, st):
     ordinal, lc = self._loop_contract(st)
     self._ghost_run(lc.ghost_init)
-    mods = assigned_names(st.body) | alias_mods([st]) | set(self._ghost_names(lc))
+    mods = assigned_names(st.body) | alias_mods([st]) | set(self._ghost_names(lc)) | set(lc.havoc)
     self.loop_entry[ordinal] = self._snap_env()
     self._check_inv(lc, 'inv.init', ordinal, {})
     which = self.dec.choose(2)
